@@ -654,7 +654,7 @@ func covers(w, p string) bool {
 
 // runScenario evaluates the property on one history. It returns the classes
 // of the differences ("" = unclassified) and a witness.
-func runScenario(r *hx.Run, sc *scenario) {
+func runScenario(r *hx.Run, sc *scenario) (out *scenarioRun) {
 	flat := flatten(sc.layers)
 	var tars [][]byte
 	var digests []string
@@ -710,7 +710,9 @@ func runScenario(r *hx.Run, sc *scenario) {
 	}
 	checkE2EWellformed(r, sc, idx, digests, witness)
 	checkWhiteoutScan(r, sc, idx, digests, witness)
-	opIndexFromStore(r, idx, digests)
+	sensitive := opIndexFromStore(r, idx, digests)
+	out = &scenarioRun{tars: tars, canon: canonReport(idx.Report), sensitive: sensitive, ops: sc.Ops}
+	checkDeployment(r, tars, idx, out, witness)
 	opFlat(r, sc.layers, flat)
 	// inside the hypothesis Tame of index_eq_flatten_partial (evaluated on the abstraction of this
 	// history) nothing is excused
@@ -888,6 +890,7 @@ func runScenario(r *hx.Run, sc *scenario) {
 	if len(unexplained) > 0 {
 		r.Fail("", witness("index != flatten: "+strings.Join(unexplained, "; ")))
 	}
+	return out
 }
 
 // checkDists: the distribution side of the statement. When every OS ecosystem's distribution
@@ -967,6 +970,136 @@ func pyCtx(l layerFS) string {
 		return "dpkg"
 	}
 	return ""
+}
+
+// scenarioRun is what later checks need of one indexed scenario.
+type scenarioRun struct {
+	tars      [][]byte
+	canon     string // canonical text of the finished report
+	sensitive bool   // the report depends on the coalescers' completion order (finding lang-shared-id-across-ecosystems)
+	ops       []string
+}
+
+// canonReport renders a report with the full layer digests (the short layer names of the protocol lines
+// belong to one scenario; two scenarios may share a layer).
+func canonReport(ir *claircore.IndexReport) string {
+	saved := digestNames
+	digestNames = map[string]string{}
+	defer func() { digestNames = saved }()
+	return renderReport(ir, false, true) + " " + renderRecords(ir)
+}
+
+// checkDeployment: the manifest was indexed through the long-lived Ecosystem values every manifest of this
+// run goes through (as a deployment does).
+//
+// (1) history independence: a fresh set of Ecosystem values gives the same finished report — a coalescer or
+// scanner that keeps state between manifests shows up here (and in the flattened-image oracle) from the
+// second manifest on;
+// (2) store read faults: with one PackagesByLayer / DistributionsByLayer / RepositoriesByLayer / FilesByLayer
+// call of the coalesce state failing, Index either fails or finishes with the same report; a success with
+// another report (a tolerated fault: e.g. the whiteouts of one layer silently missing) is the violation.
+func checkDeployment(r *hx.Run, tars [][]byte, idx indexResult, run *scenarioRun, witness func(string) string) {
+	if run.sensitive {
+		r.Count("e2e:deployment:skipped(report depends on goroutine order)")
+		return
+	}
+	var fresh indexResult
+	if o := hx.Guard(func() string { fresh = realIndexWith(tars, indexOpt{Fresh: true, FaultAt: -1}); return "ok" }); o == "panic" || fresh.Err != nil || fresh.Report == nil {
+		r.Fail("", witness(fmt.Sprintf("indexing with fresh Ecosystem values fails: %v", fresh.Err)))
+		return
+	}
+	r.Count("e2e:deployment:compared-with-fresh-ecosystems")
+	if c := canonReport(fresh.Report); c != run.canon {
+		r.Fail("", witness(fmt.Sprintf("history dependence: manifest number %d indexed through the long-lived Ecosystem values gives %s; fresh Ecosystem values give %s;", manifestsIndexed, run.canon, c)))
+		return
+	}
+	manifestsIndexed++
+	reads := idx.Store.readLog
+	if len(reads) == 0 {
+		return
+	}
+	h := 0
+	for _, t := range tars {
+		h = h*31 + len(t)
+	}
+	if h < 0 {
+		h = -h
+	}
+	pick := map[int]bool{h % len(reads): true}
+	var nonEmpty, files []int
+	for i, rd := range reads {
+		if rd.NonEmpty {
+			nonEmpty = append(nonEmpty, i)
+			if rd.Method == "FilesByLayer" {
+				files = append(files, i)
+			}
+		}
+	}
+	if len(nonEmpty) > 0 {
+		pick[nonEmpty[h%len(nonEmpty)]] = true
+	}
+	if len(files) > 0 {
+		pick[files[h%len(files)]] = true
+	}
+	var ks []int
+	for k := range pick {
+		ks = append(ks, k)
+	}
+	sort.Ints(ks)
+	for _, k := range ks {
+		var res indexResult
+		o := hx.Guard(func() string { res = realIndexWith(tars, indexOpt{FaultAt: k}); return "ok" })
+		rd := reads[k]
+		what := fmt.Sprintf("store read %d of the coalesce state (%s for layer %s, non-empty=%v) fails", k, rd.Method, rd.Layer, rd.NonEmpty)
+		switch {
+		case o == "panic":
+			r.Fail("", witness(what+": Index panics"))
+		case res.Err != nil || res.Report == nil || !res.Report.Success:
+			r.Count("e2e:fault:" + rd.Method + ":index-fails")
+		case canonReport(res.Report) == run.canon:
+			r.Count("e2e:fault:" + rd.Method + ":same-report")
+		default:
+			r.Fail("", witness(what+fmt.Sprintf(", yet Index succeeds with another report: %s instead of %s;", canonReport(res.Report), run.canon)))
+		}
+	}
+}
+
+// manifestsIndexed counts the manifests that went through the long-lived ecosystems.
+var manifestsIndexed int
+
+// checkConcurrent: two manifests indexed at the same time through the long-lived Ecosystem values give the
+// reports they give one after the other.
+func checkConcurrent(r *hx.Run, a, b *scenarioRun) {
+	if a == nil || b == nil || a.sensitive || b.sensitive {
+		return
+	}
+	var ra, rb indexResult
+	var pa, pb any
+	done := make(chan struct{}, 2)
+	go func() {
+		defer func() { pa = recover(); done <- struct{}{} }()
+		ra = realIndex(a.tars)
+	}()
+	go func() {
+		defer func() { pb = recover(); done <- struct{}{} }()
+		rb = realIndex(b.tars)
+	}()
+	<-done
+	<-done
+	r.Count("e2e:deployment:two-manifests-concurrently")
+	for _, x := range []struct {
+		run *scenarioRun
+		res indexResult
+		p   any
+	}{{a, ra, pa}, {b, rb, pb}} {
+		j, _ := json.Marshal(x.run.ops)
+		switch {
+		case x.p != nil || x.res.Err != nil || x.res.Report == nil:
+			r.Fail("", fmt.Sprintf("two manifests indexed concurrently through one set of Ecosystem values: Index fails (%v %v) history=%s", x.p, x.res.Err, j))
+		case canonReport(x.res.Report) != x.run.canon:
+			r.Fail("", fmt.Sprintf("two manifests indexed concurrently through one set of Ecosystem values: report %s, alone it is %s; history=%s", canonReport(x.res.Report), x.run.canon, j))
+		}
+	}
 }
 
 func bucket(n int) int {
@@ -1066,7 +1199,7 @@ func checkE2EWellformed(r *hx.Run, sc *scenario, idx indexResult, digests []stri
 // opIndexFromStore: the artifacts the real scanners produced, packed per
 // ecosystem as controller.coalesce packs them, as an `idx` protocol line; the
 // answer is the report the real controller finished with.
-func opIndexFromStore(r *hx.Run, idx indexResult, digests []string) {
+func opIndexFromStore(r *hx.Run, idx indexResult, digests []string) (sensitive bool) {
 	ctx := context.Background()
 	short := map[string]string{}
 	var layers []string
@@ -1124,14 +1257,15 @@ func opIndexFromStore(r *hx.Run, idx indexResult, digests []string) {
 		// which coalescer goroutine finished last (finding lang-shared-id-across-ecosystems); the pure
 		// layer compares MergeSR in every order instead
 		r.Count("idx:from-real-scanners:skipped(report depends on goroutine order)")
-		return
+		return true
 	}
 	op := "idx " + strings.Join(layers, ",") + " " + strings.Join(parts, " ")
 	if strings.ContainsAny(strings.Join(parts, ""), " \t") {
-		return
+		return false
 	}
 	r.Op(op, renderReport(idx.Report, false, true)+" "+renderRecords(idx.Report), len(digests) > 1)
 	r.Count("idx:from-real-scanners")
+	return false
 }
 
 // orderSensitive: some package id occurs in the artifacts of two ecosystems with different
@@ -1215,9 +1349,14 @@ func runE2E(r *hx.Run, cfg hx.Config, rnd *hx.Rand) {
 		runScenario(r, ws[k])
 	}
 	n := cfg.N(500, 20000)
+	var prev *scenarioRun
 	for i := 0; i < n && !r.Stop(); i++ {
 		tame := i%3 != 2
 		sc := genScenario(rnd.Fork(), tame, 8)
-		runScenario(r, sc)
+		cur := runScenario(r, sc)
+		if i%5 == 4 && !r.Stop() {
+			checkConcurrent(r, prev, cur)
+		}
+		prev = cur
 	}
 }
